@@ -234,6 +234,42 @@ func patchArgs(v reflect.Value, fh []byte, name string, cnt *int) {
 }
 
 // RunXdr reads vectors (lines "VEC {json}" and "PROCS [json]" extracted from TLC's output) and writes the trace.
+// poison replaces every string and byte slice inside v by a longer run of 0xee bytes (array lengths and union arms stay).
+func poison(v reflect.Value) {
+	switch v.Kind() {
+	case reflect.Ptr, reflect.Interface:
+		if !v.IsNil() {
+			poison(v.Elem())
+		}
+	case reflect.Struct:
+		for i := 0; i < v.NumField(); i++ {
+			if v.Field(i).CanSet() {
+				poison(v.Field(i))
+			}
+		}
+	case reflect.String:
+		v.SetString(strings.Repeat("\xee", v.Len()+13))
+	case reflect.Slice:
+		if v.Type().Elem().Kind() == reflect.Uint8 {
+			b := make([]byte, v.Len()+13)
+			for i := range b {
+				b[i] = 0xee
+			}
+			if v.Len()+13 <= 64 || v.Type().Name() == "" { // keep handles within NFS3_FHSIZE
+				v.SetBytes(b)
+			}
+			return
+		}
+		for i := 0; i < v.Len(); i++ {
+			poison(v.Index(i))
+		}
+	case reflect.Array:
+		for i := 0; i < v.Len(); i++ {
+			poison(v.Index(i))
+		}
+	}
+}
+
 func RunXdr(vecFile string, t *Trace) error {
 	f, err := os.Open(vecFile)
 	if err != nil {
@@ -295,6 +331,15 @@ func RunXdr(vecFile string, t *Trace) error {
 			continue
 		}
 		ev["built"] = true
+		// an encoder must not depend on what it encoded before (recycled buffers): first encode the same value with every
+		// string and opaque replaced by a longer run of 0xee bytes, then the value itself
+		pv := reflect.New(gt)
+		if build(pv.Elem(), vc.Val) == nil {
+			poison(pv.Elem())
+			for k := 0; k < 3; k++ {
+				encode(pv)
+			}
+		}
 		if b, err := encode(v); err != nil {
 			ev["note"] = "encode: " + err.Error()
 		} else {
